@@ -329,7 +329,15 @@ def covered_preserve(a, msg):
     pref = any(fid == PREFIXED for fid, _ in hits)
     others = [(fid, neut) for fid, neut in hits if fid != PREFIXED]
     if DENOTES not in msg:
-        return PREFIXED if pref else None
+        if not pref:
+            return None
+        # only the spelling differs: it is the finding's only if the same document with its declared-prefixed values
+        # replaced by plain ones comes back unchanged (another value whose spelling changes is another violation)
+        t2 = copy.deepcopy(a["tree"])
+        for n, d in _walk(t2):
+            if d:
+                _neut_prefixed(n, d)
+        return PREFIXED if oracle_preserve({**a, "tree": t2}) is None else None
 
     def spelled_only(t2):
         m2 = oracle_preserve({**a, "tree": t2})
